@@ -2,7 +2,7 @@
     transaction sequences and for an arbitrary expression type and decision predicate. *)
 From BX Require Import Base.Prelude Base.Fsm Model.Strategy Model.Gov Proofs.StrategyProofs.
 From BXGen Require Import Gen_GovConsts.
-From Coq Require Import String ZifyBool ZifyN ZifyNat.
+From Coq Require Import String ZifyBool ZifyN ZifyNat QArith.
 Local Open Scope N_scope.
 
 (** * Lists *)
@@ -458,8 +458,7 @@ Section GovProofs.
           intro H; inversion H; subst. eapply ext_trans; [exact E1|]. eapply ext_trans; [eapply cascade_ext; exact Ec | apply ext_usi]. }
         destruct (seqb ev gov_ev_logout); [|intro H; inversion H; subst; exact E1].
         destruct (seqb next gov_ev_reject && is_avail_status s'); [|intro H; inversion H; subst; exact E1].
-        destruct (cascade sem cfg_fixed rec st1 obj true) as [s2|c] eqn:Ec; [|discriminate].
-        intro H; inversion H; subst. eapply ext_trans; [exact E1|]. eapply ext_trans; [eapply cascade_ext; exact Ec | apply ext_usi].
+        cbn [d_logout_inc cfg_fixed]. intro H; inversion H; subst. eapply ext_trans; [exact E1 | apply ext_usi].
       - destruct (m =? 1).
         + destruct (node_of st obj) as [s|]; [|discriminate].
           destruct (fire gov_node_fsm s next last) as [s'|]; [|discriminate].
@@ -1227,12 +1226,12 @@ Section GovProofs.
     step_ok E_eqb sem accts nodes a o rc b = 0 <->
     cl_final a b = true /\ cl_tally b = true /\ cl_ballots a b = true /\ cl_approved sem b = true /\
     cl_rejected sem a b = true /\ cl_special b = true /\ cl_refusal E_eqb accts nodes a o rc b = true /\
-    cl_object accts nodes a b = true /\ cl_header E_eqb a b = true /\ cl_avail a b = true.
+    cl_object accts nodes a b = true /\ cl_header E_eqb a b = true /\ cl_avail a b = true /\ cl_bound b = true.
   Proof.
     unfold step_ok.
     destruct (cl_final a b), (cl_tally b), (cl_ballots a b), (cl_approved sem b), (cl_rejected sem a b),
              (cl_special b), (cl_refusal E_eqb accts nodes a o rc b), (cl_object accts nodes a b),
-             (cl_header E_eqb a b), (cl_avail a b); simpl; split; intro H; try discriminate; try tauto;
+             (cl_header E_eqb a b), (cl_avail a b), (cl_bound b); simpl; split; intro H; try discriminate; try tauto;
       repeat match goal with H : _ /\ _ |- _ => destruct H end; try discriminate.
   Qed.
 
@@ -1242,7 +1241,7 @@ Section GovProofs.
     | (o, rc, b) :: t => step_ok E_eqb sem accts nodes a o rc b = 0 /\ trace_P accts nodes b t
     end.
 
-  Lemma step_ok_small accts nodes (a : state) o rc (b : state) : step_ok E_eqb sem accts nodes a o rc b <= 10.
+  Lemma step_ok_small accts nodes (a : state) o rc (b : state) : step_ok E_eqb sem accts nodes a o rc b <= 11.
   Proof.
     unfold step_ok.
     repeat match goal with |- context[if ?c then _ else _] => destruct c end; lia.
@@ -1359,7 +1358,7 @@ Proof. vm_compute. repeat split. Qed.
 (** * Witnesses: each listed defect violates the property on the faithful model, and the same
       history is fine on the repaired model *)
 
-Definition w_pool : list bexp := [default_bexp; BCmp CEq NA (NConst (2#1))].
+Definition w_pool : list bexp := [default_bexp; BCmp CEq NA (NConst (2#1)%Q)].
 Definition w_vote3 : list (N * (bool * N * string)) :=
   [(0, (false, 0, gov_st_available)); (1, (false, 0, gov_st_available)); (2, (false, 0, gov_st_available))].
 Definition w_accts : list N := [0; 1; 2; 3; 4; 100; 200].
@@ -1408,6 +1407,15 @@ Lemma unlock_closed_refuted :
   model_code w_pool w_accts w_nodes [2; 1; 1; 1] w_vote3 0 w_unlock_ops = 0.
 Proof. split; vm_compute; reflexivity. Qed.
 
+(** a rejected logout request of an available admin leaves every open proposal that has him in its
+    electorate with one more "available" elector than before the request: more than the electorate (clause 11) *)
+Definition w_logout_ops : list (@op N) :=
+  [ORegRole 0 100; OLogout 1 1; OVote 0 1%nat 0; OVote 2 1%nat 0].
+Lemma logout_inc_refuted :
+  model_code w_pool w_accts w_nodes [2; 1; 1; 1] w_vote3 32 w_logout_ops = 3 * 16 + 11 /\
+  model_code w_pool w_accts w_nodes [2; 1; 1; 1] w_vote3 0 w_logout_ops = 0.
+Proof. split; vm_compute; reflexivity. Qed.
+
 (** the hypothesis "monotone" of the rejection theorem is needed: with the admitted expression
     [a == 2] the repaired model rejects after the first approval (clause 5) *)
 Definition w_nonmono_strat : list (N * (bool * N * string)) :=
@@ -1424,7 +1432,7 @@ Definition w_init : @state N := init_state [2; 1; 1; 1] w_vote3.
 Example ex_approved_and_rejected :
   let st := run_ops N.eqb w_sem 0 w_init
               [ORegRole 0 100; OVote 1 0%nat 1; OVote 2 0%nat 1; OVote 0 0%nat 1;
-               ORegNode 0 300; OVote 1 1%nat 0; OVote 2 1%nat 0; OVote 0 0%nat 0; OVote 200 1%nat 1] in
+               ORegNode 0 300; OVote 1 1%nat 0; OVote 2 1%nat 0; OVote 3 1%nat 0; OVote 0 0%nat 0; OVote 200 1%nat 1] in
   reach N.eqb w_sem 0 st /\
   exists p q, nth_error (s_props st) 0 = Some p /\ nth_error (s_props st) 1 = Some q /\
     p_status p = ST_APPROVED /\ by_tally p = true /\ h_special (p_hdr p) = true /\ p_super p = true /\ p_manage p = [ST_APPROVED] /\
@@ -1434,30 +1442,7 @@ Proof.
   split; [apply reach_run_ops; constructor|]. vm_compute. eexists. eexists. repeat split.
 Qed.
 
-Example ex_default_expression_monotone : mono (w_sem 0).
-Proof.
-  unfold mono, w_sem, pool_sem, w_pool. cbn [nth N.to_nat]. intros a a' r r' t H1 H2 H.
-  unfold qsem, default_bexp in *. cbn [beval neval qcmp] in *.
-  apply negb_true_iff in H. apply negb_true_iff. unfold Qle_bool in *. cbn [Qmult Qnum Qden inject_Z f64N] in *.
-  apply Z.leb_gt in H. apply Z.leb_gt.
-  assert (round53 a <= round53 a') as Hm.
-  { unfold round53. destruct (a <? 9007199254740992) eqn:Ea, (a' <? 9007199254740992) eqn:Ea'; try lia.
-    - set (k := N.log2 a' - 52).
-      assert (9007199254740992 <= N.shiftl (N.shiftr a' k) k).
-      { rewrite N.shiftl_mul_pow2, N.shiftr_div_pow2.
-        assert (2 ^ 53 <= a') by (change (2 ^ 53) with 9007199254740992; lia).
-        assert (53 <= N.log2 a') by (apply N.log2_le_pow2; lia).
-        assert (2 ^ N.log2 a' <= a') by (apply N.log2_spec; lia).
-        replace (N.log2 a') with (52 + k) in H3 at 1 by (unfold k; lia). rewrite N.pow_add_r in H3.
-        assert (2 ^ 52 <= a' / 2 ^ k).
-        { apply N.div_le_lower_bound; [apply N.pow_nonzero; lia | lia]. }
-        change 9007199254740992 with (2 ^ 52 * 2). assert (2 <= 2 ^ k \/ k = 0) as [Hk|Hk].
-        { destruct (N.eq_dec k 0); [right; assumption | left]. change 2 with (2 ^ 1) at 1. apply N.pow_le_mono_r; lia. }
-        - nia.
-        - exfalso. unfold k in Hk. lia. }
-      destruct (N.shiftl 1 (k - 1) <? a' - N.shiftl (N.shiftr a' k) k);
-        [|destruct (a' - N.shiftl (N.shiftr a' k) k =? N.shiftl 1 (k - 1)); [destruct (N.even (N.shiftr a' k))|]];
-        rewrite ?N.shiftl_mul_pow2 in *; nia.
-    - exfalso; lia. }
-  lia.
-Qed.
+(** the monotonicity hypothesis of the rejection theorem is satisfiable: simple majority
+    [a > t/2] (the default strategy; [default_bexp_spec] ties the running instance to it) *)
+Example ex_mono_hypothesis : mono ((fun _ : unit => simple_majority) tt).
+Proof. exact simple_majority_mono. Qed.
